@@ -15,7 +15,8 @@ RULE = ("case = (solvated multi-chain system cut from the seed structures: prote
         "without CA, ligand, ions, waters; 1-3 noisy frames; optional orthorhombic / triclinic cell) x descriptor in {contacts for the 5 "
         "schemes x 'all' / explicit pairs x periodic x soft_min(beta), centre of mass / geometry, Rg (+ weight scaling), gyration tensor, "
         "principal moments, asphericity, acylindricity, kappa^2, inertia tensor, density (+ masses), RDF with r_range / bin settings, "
-        "DRID with atom subsets, dipole moments, Karplus J couplings}; oracle = float64 closed form from the documentation evaluated on "
+        "DRID with atom subsets, dipole moments, Karplus J couplings (HN-HA 3 models, HN-C, HN-CB), directors / nematic order over chains, "
+        "residues or explicit groups, isothermal compressibility and static dielectric from the cell-volume / dipole fluctuations}; oracle = float64 closed form from the documentation evaluated on "
         "the same coordinates, masses and cell, with label / index bookkeeping checked against the returned labels; non-trivial = "
         "residues of unequal size and >= 3 residue pairs, or a non-default RDF range, or an atom subset")
 QUICK = {"examples": 500, "shards": 12, "budget_s": 110}
@@ -24,6 +25,7 @@ ASSUMPTIONS = ["contact distances are re-derived from md.compute_distances value
                "asphericity / acylindricity / kappa^2 use the standard definitions of the cited NIST reference on the ascending principal moments",
                "Rg with masses: only invariance under scaling of the weights is asserted (the docstring gives no formula); dipole moments are "
                "compared up to one global sign (the docstring fixes none)",
+               "directors are compared up to sign and only where the smallest moment of inertia is separated from the next by > 1e-3 of the largest",
                "RDF: pairs whose distance lies within 1e-6 of a bin edge are not counted in the comparison"]
 WHERE = {
     # soft minimum evaluated in single precision: exp(beta/d) overflows for beta/d > 88 (d < 0.23 nm with the default beta)
@@ -436,6 +438,7 @@ def run_case(case):
 TECHNIQUE = "property-based testing (Hypothesis) against float64 closed forms from the documentation; bookkeeping re-derivation from returned labels"
 LEVEL_TEXT = ("Generated solvated multi-chain systems (unequal residue sizes, GLY, a residue without CA, ligand, ions, water; optional cells) are "
               "passed to compute_contacts (5 schemes, 'all'/explicit pairs, soft minimum), centre of mass/geometry, Rg, gyration/inertia tensors "
-              "and shape descriptors, density, RDF, DRID, dipole moments and Karplus couplings; every result is compared with the documented "
+              "and shape descriptors, density, RDF, DRID, dipole moments, Karplus couplings, directors / nematic order, compressibility and static "
+              "dielectric; every result is compared with the documented "
               "closed form in float64, including the residue-pair labels, square form, bin centres and atom bookkeeping.")
 LEVEL_NOTE = "Element masses and the Karplus coefficient tables are taken from the documented tables (pinned for the J couplings); one seed system."
